@@ -267,7 +267,7 @@ class Ctx:
             meta.pop('nopc', None)
             meta.pop('hyps', None)
             ok = truth(goal) if not extra or all(truth(e) for e in extra) else True
-            self.conc_results.append((clause, kind, bool(ok), meta))
+            self.conc_results.append((clause, kind, bool(ok), dict(meta, _props=list(props or self.props))))
             return
         goal = tobool(goal)
         if meta.pop('nopc', False):
